@@ -82,6 +82,38 @@ CHECKS = {
         technique="deterministic simulation: seeded scheduling of real processes parked at intercepted FS calls, history oracles",
         design_ref="DESIGN.md 5, 7 (C07)",
     ),
+    "C10": dict(
+        engine="P",
+        category="exploration",
+        text=("Histories in which the generated code's own fault point raises a seeded exception object (Exception and "
+              "BaseException subclasses) at the entry or just before the return of a seeded function; exception identity, "
+              "blobs only for kept functions that completed, no path commit, and equivalence of the rest of the history "
+              "with the twin history that never saw the failure (values, signatures; logs a subset)."),
+        note=PIPE_NOTE + " Fault = user-code exception only.",
+        technique="deterministic simulation: seeded user-code fault injection inside edit/restart histories, twin-history differential",
+        design_ref="DESIGN.md 4.8, 7 (C10)",
+    ),
+    "C11": dict(
+        engine="P",
+        category="exploration",
+        text=("Valid histories with ill-formed entry points (prefix-overlapping kept paths in seeded order / separation / "
+              "nesting; call cycles of length 1-4 through calls, keeps, higher-order references; nested dds.eval) evaluated "
+              "at seeded positions in the same process and store as the valid evaluations: error code, empty execution log, "
+              "unchanged store snapshot, and twin-history equivalence afterwards. Placements are sampled, not enumerated."),
+        note=PIPE_NOTE + " Cycles through methods are not generated.",
+        technique="deterministic simulation: seeded placement of ill-formed evaluations in stateful histories, snapshot and twin-history oracles",
+        design_ref="DESIGN.md 7 (C11)",
+    ),
+    "C15": dict(
+        engine="P",
+        category="exploration",
+        text=("Histories with evaluations restricted by dds_stages (every prefix of the stage order, names in any case, enum "
+              "members) on fresh and populated stores: no execution / blob / path per stage list, correct values when eval is "
+              "included, and twin-history equivalence of everything that follows."),
+        note=PIPE_NOTE,
+        technique="deterministic simulation: seeded restricted-stage evaluations inside histories, snapshot and twin-history oracles",
+        design_ref="DESIGN.md 4.8, 7 (C15)",
+    ),
     "C12": dict(
         engine="K",
         category="exploration",
